@@ -11,7 +11,7 @@ NOTE: never use `git stash` (the stash is shared between all worktrees of this r
 
 ALREADY DONE by earlier contributors (do NOT repeat these; pick different files/functions/mechanisms, and prefer parts of the property's statement they did not touch; a change in a module far from the obvious one, that still breaks this property, is especially welcome):
 EOT
- for n in 1 2 3 4 5 6; do python3 - $id $n >> $ROOTD/$id-out/PROMPT.md <<'PY'
+ for n in 1 2 3 4 5 6 7 8; do python3 - $id $n >> $ROOTD/$id-out/PROMPT.md <<'PY'
 import json,sys,re
 d='/verif/seeded/%s-%s'%(sys.argv[1],sys.argv[2])
 try:
